@@ -277,6 +277,10 @@ func execC07(e *Env, pp any) {
 			e.Violate(prop, "open-wrong-error", site, "NewStream on a cancelled context failed with %v, want the context's error", tr.NewStreamErr)
 		}
 		e.Note("cancel.during-open")
+		// The failed open ends the caller's side. If the open envelope nevertheless
+		// reached the wire the server has a handler for it, and the rest of the
+		// property still binds: a reset goes out and the handler is not left running.
+		c07ServerSide(e, p, net, tr, rsite, false, false, trailerReadEv)
 		return
 	}
 	if !tr.Returned {
@@ -339,41 +343,7 @@ func execC07(e *Env, pp any) {
 	} else if last := tr.CSendErr[n-1]; !completedInFlight && !concurrent && !isCtxStatus(last, p.Deadline) && last != io.EOF {
 		e.Violate(prop, "send-wrong-error", site, "SendMsg after the cancellation failed with %v, want the context's error", last)
 	}
-	// (3) reset on the wire
-	opened, reset := false, false
-	cout := net.CEnds[0].Out
-	cout.mu.Lock()
-	for _, tp := range cout.Tap {
-		if callOfEnvelope(tp.Rpc) == p.Target.ID {
-			opened = true
-		}
-	}
-	var wid uint64
-	for _, tp := range cout.Tap {
-		if callOfEnvelope(tp.Rpc) == p.Target.ID {
-			wid = tp.Rpc.GetId()
-			break
-		}
-	}
-	for _, tp := range cout.Tap {
-		if opened && tp.Rpc.GetId() == wid && tp.Rpc.GetReset_() != nil {
-			reset = true
-		}
-	}
-	cout.mu.Unlock()
-	if opened && !completedInFlight && !concurrent && trailerReadEv == 0 && !reset {
-		e.Violate(prop, "no-reset", rsite, "the stream was opened and no trailer was received, but no reset for id %d was written during settle", wid)
-	}
-	if reset {
-		e.Note("reset.sent")
-	}
-	// (4) handler context done
-	if tr.HInvoked > 0 && tr.HCtx != nil && tr.HCtx.Err() == nil {
-		e.Violate(prop, "handler-ctx-live", rsite, "the handler's context is still live after settle although its caller has gone")
-	}
-	if opened && tr.HInvoked > 0 && !tr.HReturned {
-		e.Violate(prop, "handler-running", rsite, "the handler is still running after settle although its caller has gone\n%s", e.WaitGraph())
-	}
+	c07ServerSide(e, p, net, tr, rsite, completedInFlight, concurrent, trailerReadEv)
 	// (5) other calls unaffected
 	run := &MixRun{E: e, Sim: sim, Net: net, P: &MixParams{}}
 	saved := sim.Order
@@ -398,6 +368,47 @@ func execC07(e *Env, pp any) {
 	}
 	histMu.Unlock()
 	checkWireLinks(e, sim, []*Link{net.CEnds[0].Out}, []*Link{net.CEnds[0].In}, false)
+}
+
+// c07ServerSide: parts (3) and (4) of the property - a reset for the opened
+// stream is on the wire and the handler is neither running nor holding a live context.
+func c07ServerSide(e *Env, p *C07Params, net *Net, tr *CallRec, rsite string, completedInFlight, concurrent bool, trailerReadEv int) {
+	const prop = "C07"
+	// (3) reset on the wire
+	opened, reset := false, false
+	cout := net.CEnds[0].Out
+	cout.mu.Lock()
+	for _, tp := range cout.Tap {
+		if callOfEnvelope(tp.Rpc) == p.Target.ID && !tp.Withdrawn {
+			opened = true // at least one envelope of the call really reached the server's side of the link
+		}
+	}
+	var wid uint64
+	for _, tp := range cout.Tap {
+		if callOfEnvelope(tp.Rpc) == p.Target.ID {
+			wid = tp.Rpc.GetId()
+			break
+		}
+	}
+	for _, tp := range cout.Tap {
+		if opened && tp.Rpc.GetId() == wid && tp.Rpc.GetReset_() != nil && !tp.Withdrawn {
+			reset = true
+		}
+	}
+	cout.mu.Unlock()
+	if opened && !completedInFlight && !concurrent && trailerReadEv == 0 && !reset {
+		e.Violate(prop, "no-reset", rsite, "the stream was opened and no trailer was received, but no reset for id %d was written during settle", wid)
+	}
+	if reset {
+		e.Note("reset.sent")
+	}
+	// (4) handler context done
+	if tr.HInvoked > 0 && tr.HCtx != nil && tr.HCtx.Err() == nil {
+		e.Violate(prop, "handler-ctx-live", rsite, "the handler's context is still live after settle although its caller has gone")
+	}
+	if opened && tr.HInvoked > 0 && !tr.HReturned {
+		e.Violate(prop, "handler-running", rsite, "the handler is still running after settle although its caller has gone\n%s", e.WaitGraph())
+	}
 }
 
 func wantName(deadline bool) string {
